@@ -70,8 +70,8 @@ func goValue(k, v string) (val interface{}, ok bool) {
 		return unsupportedT{1}, v == ""
 	case "bool":
 		return v == "true", v == "true" || v == "false"
-	case "int":
-		n, ok := s64(64)
+	case "int": // a value of THIS build's int: 32 bits on GOARCH=386; anything wider is not a value of the kind
+		n, ok := s64(strconv.IntSize)
 		return int(n), ok
 	case "i8":
 		n, ok := s64(8)
@@ -86,7 +86,7 @@ func goValue(k, v string) (val interface{}, ok bool) {
 		n, ok := s64(64)
 		return n, ok
 	case "uint":
-		n, ok := u64(64)
+		n, ok := u64(strconv.IntSize)
 		return uint(n), ok
 	case "u8":
 		n, ok := u64(8)
@@ -795,8 +795,28 @@ func bitsOf(k string) int {
 		return 16
 	case "i32", "u32", "f32":
 		return 32
+	case "int", "uint": // the word of the build under test
+		return strconv.IntSize
 	}
 	return 64
+}
+
+//go:noinline
+func widenProbe(f float32) float64 { return float64(f) }
+
+// archLine is the first line of every op stream: the word size of THIS build and what its float32 ->
+// float64 conversion does with a NaN (Go leaves that to the platform: amd64/arm64 keep sign and payload
+// and set the quiet bit, the 386 back end yields the canonical NaN). The model answers every later line
+// under these two platform facts (Model/C07.lean: archParams).
+func archLine() string {
+	nan := "other"
+	switch math.Float64bits(widenProbe(math.Float32frombits(0xffc12345))) {
+	case 0xfff82468a0000000:
+		nan = "quiet"
+	case 0x7ff8000000000000:
+		nan = "canon"
+	}
+	return fmt.Sprintf("arch bits=%d nan=%s", strconv.IntSize, nan)
 }
 
 func signedKind(k string) bool {
@@ -1025,6 +1045,7 @@ func main() {
 	r := hxlib.Start("C07", "one op on a packet value; non-trivial when the value is an extreme, negative, NaN/Inf/-0/subnormal, empty or not UTF-8, the error code is negative or extreme, or the request has references / a non-zero type; distinct by the op's arguments")
 	defer r.Finish()
 	log.SetOutput(io.Discard)
+	r.Op(archLine(), "ok")
 	if r.Replay != "" {
 		var c Case
 		r.LoadReplay(&c)
